@@ -186,6 +186,8 @@ func checkC09(r *Report) {
 	r.floor("C09.g/SKIP-COUNTER", "merge loops (inner index starting at the outer index + 1) in package semver", nK, 1)
 	boundsCopiedRule(r, p, "C09.i/BOUNDS-COPIED")
 	tiePrereleaseRule(r, p, "C09.l/TIE-PRERELEASE")
+	nMT := mergeTaggedRule(r, p, "C09.n/MERGE-TAGGED")
+	r.floor("C09.n/MERGE-TAGGED", "folds of one span into another in canon", nMT, 1)
 	nMB := markersBothRule(r, p, "C09.m/MARKERS-BOTH")
 	r.floor("C09.m/MARKERS-BOTH", "functions of package semver that compare one number with both markers", nMB, 1)
 	nPF := preFlagRule(r, p, "C09.k/PRE-FLAG")
